@@ -42,6 +42,8 @@ impl ToTokens for FromMetaImpl<'_> {
                     fn from_word() -> ::darling::Result<Self> {
                         ::darling::export::Ok(#ty_ident)
                     }
+
+                    #from_none
                 )
             }
 
@@ -58,6 +60,8 @@ impl ToTokens for FromMetaImpl<'_> {
                             .map_err(|e| e.with_span(&__item))
                             .map(#ty_ident)
                     }
+
+                    #from_none
                 )
             }
             Data::Struct(Fields {
